@@ -401,6 +401,20 @@ class CopyLoop:
         self.key, self.val_name, self.value = key, val_name, value
         self.atoms = atoms                  # [(atom, polarity)] between the loop header and the store
         self.header_conds = header_conds    # conditions under which the loop itself runs
+        self.func = None                    # function that contains the loop (a one-level helper of the asked function or itself)
+        self.via = None                     # call of that helper inside the asked function (None: loop is in the function itself)
+        self.src_caller, self.dst_caller = src_expr, dst_expr    # src / dst in terms of the asked function
+
+    def on_every_path(self, f: Func) -> bool:
+        """the loop runs on every path of f to its normal exit (through the helper call when there is one)"""
+        c = cfg_of(self.func)
+        if not c.dominates(c.node_of(self.for_node), c.exit):
+            return False
+        if self.via is None:
+            return True
+        cf = cfg_of(f)
+        n = cf.node_containing(self.via)
+        return n is not None and cf.dominates(n, cf.exit) and not cf.enclosing_loops(n)
 
 
 def _dict_source(it: ast.AST):
@@ -433,7 +447,51 @@ def _reads_attr(value: ast.AST, src_expr: ast.AST, key: str, val_name: Optional[
     return False
 
 
-def find_copy_loops(ctx, f: Func) -> List[CopyLoop]:
+def find_copy_loops(ctx, f: Func, deep: bool = True) -> List[CopyLoop]:
+    """copy loops of f and (deep) of helpers called directly by f, the latter with src/dst translated to f's expressions"""
+    out = _direct_copy_loops(ctx, f)
+    for l in out:
+        l.func = f
+    if not deep:
+        return out
+    for ci in ctx.cg.calls_in(f):
+        if ci.kind != 'call' or len(ci.targets) != 1 or not isinstance(ci.node, ast.Call):
+            continue
+        callee, call = ci.targets[0], ci.node
+        if callee is f or isinstance(callee.node, ast.Lambda):
+            continue
+        params = list(callee.params)
+        args = list(call.args)
+        if callee.kind == 'method' and isinstance(call.func, ast.Attribute):
+            args = [call.func.value] + args
+        if any(isinstance(a, ast.Starred) for a in args) or len(args) > len(params):
+            continue
+        bind = dict(zip(params, args))
+        for k in call.keywords:
+            if k.arg:
+                bind[k.arg] = k.value
+        for l in _direct_copy_loops(ctx, callee):
+            if isinstance(l.src, ast.Name) and l.src.id in bind and isinstance(l.dst, ast.Name) and l.dst.id in bind:
+                l.func, l.via = callee, call
+                l.src_caller, l.dst_caller = bind[l.src.id], bind[l.dst.id]
+                out.append(l)
+    return out
+
+
+def copy_idiom_in_reach(ctx, f: Func, exclude=()) -> bool:
+    """some function reachable from f (other than those in `exclude`) touches __dict__ / vars() / setattr: an attribute copy
+    may be written in an idiom or at a call depth the recogniser does not follow"""
+    eff = Effects(ctx.prog, ctx.typer, ctx.cg)
+    for h in eff.reach([f]):
+        if h.qual in exclude:
+            continue
+        for n in walk_no_nested(h.node):
+            if isinstance(n, ast.Attribute) and n.attr == '__dict__' or isinstance(n, ast.Name) and n.id in ('vars', 'setattr'):
+                return True
+    return False
+
+
+def _direct_copy_loops(ctx, f: Func) -> List[CopyLoop]:
     """every dynamic attribute store `D.<k> = ...` inside a loop whose variable k ranges over the attribute names of X"""
     cfg = cfg_of(f)
     ex = Expander(ctx.prog, f, ctx.typer)
@@ -514,6 +572,7 @@ def report_copy_loop(o, f: Func, cl: CopyLoop, what: str) -> bool:
     """verdict for one loop against: every public attribute is copied, nothing else, only filter not k.startswith('_').
     Returns True when the loop is a faithful generic copy."""
     ok = True
+    f = cl.func or f
     if cl.header_conds:
         o.undecided(f, cl.for_node, cl.for_node.iter, f"the {what} copy loop runs only under a condition the rule does not interpret")
         ok = False
@@ -794,6 +853,7 @@ class CloneAnalysis:
         f, L = self.f, self.L
         self._uses(f, L, f.node, None, False)
         covered = {}
+        unknown_cov = False
         for call in self.setdefaults:
             cn = L.node(call)
             if len(call.args) != 2 or call.keywords:
@@ -869,11 +929,19 @@ class CloneAnalysis:
                     tl = L.lab(t_expr, cn, {})
                     if tl.kind == 'SRC' and full_selection(tl) is None:
                         covered.setdefault(r, call)
-                note += " for x in " + ', '.join('<selected>.' + r for _, r in rel)
-            self.site(f, call, note)
+                    elif tl.kind != 'SRC':
+                        unknown_cov = True
+                for _, r in rel:
+                    self.site(f, call, note + f" for x in <selected>.{r}")
+            else:
+                unknown_cov = True
+                self.site(f, call, note)
         if not any(k == 'refute' or k == 'undecided' for c, k, *_ in self.facts if c == 'externals'):
             for r in DEP_RELS:
-                if r not in covered:
+                if r not in covered and unknown_cov:
+                    self.undecided(f, f.node, f"outside {r}", f"cannot show that the {r} of every selected task are scanned for "
+                                                              f"tasks outside the source WBS")
+                elif r not in covered:
                     self.refute(f, f.node, f"outside {r}", f"no `setdefault(x.id, x)` under `x.wbs != self` scans the {r} of every "
                                                            f"selected task: {r} that live outside the source WBS never enter the clone "
                                                            f"map, so those links are dropped instead of being kept")
@@ -903,8 +971,8 @@ class CloneAnalysis:
                 continue
             recv = L.expand(tgt.value, cn)
             rl = L.lab(recv, cn, {})
-            if rl.kind in SOURCEISH or rl.kind == 'MAPPED':
-                what = "a task of the source WBS" if rl.kind in SOURCEISH else "a map entry that may be an outside task"
+            if rl.kind in SOURCEISH or (rl.kind == 'MAPPED' and rl.origin == 'link'):
+                what = "a task of the source WBS" if rl.kind in SOURCEISH else "the map entry of a LINKED task, which may be an outside task"
                 self.refute(f, st, tgt, f"`{src(tgt)}` is assigned on {what} (`{src(recv)[:60]}`), not on the copy `map[t.id]` of a selected "
                                         f"task: the rebuild writes through a non-copy", 'receivers')
                 continue
@@ -1206,22 +1274,22 @@ class CloneAnalysis:
             good = False
             for cl in find_copy_loops(self.ctx, F):
                 seen_any = True
-                if not (isinstance(cl.src, ast.Name) and cl.src.id == F.self_name):
+                if not (isinstance(cl.src_caller, ast.Name) and cl.src_caller.id == F.self_name):
                     continue
                 o = _Recorder(self, 'wbs-attrs')
                 fine = report_copy_loop(o, F, cl, "WBS attribute")
-                dl = Labeller(self.ctx, F, self.gmap if F is g else None).label(cl.dst) if True else None
+                dst = cl.dst_caller
+                dl = Labeller(self.ctx, F, self.gmap if F is g else None).label(dst)
                 rets = [n for n in walk_no_nested(F.node) if isinstance(n, ast.Return)]
-                to_ret = all(isinstance(r.value, ast.Name) and isinstance(cl.dst, ast.Name) and r.value.id == cl.dst.id for r in rets)
+                to_ret = all(isinstance(r.value, ast.Name) and isinstance(dst, ast.Name) and r.value.id == dst.id for r in rets)
                 if fine and not (to_ret and (dl.kind == 'FRESHWBS' or F is not g)):
                     self.undecided(F, cl.call, cl.call, "the WBS attribute copy loop does not write to the returned new WBS")
                     fine = False
-                cfg = cfg_of(F)
-                if fine and not cfg.dominates(cfg.node_of(cl.for_node), cfg.exit):
-                    self.undecided(F, cl.for_node, cl.for_node.iter, "the WBS attribute copy loop is not on every path to the return")
+                if fine and not cl.on_every_path(F):
+                    self.undecided(cl.func, cl.for_node, cl.for_node.iter, "the WBS attribute copy loop is not on every path to the return")
                     fine = False
                 if fine:
-                    self.site(F, cl.for_node, "for k in self.__dict__: if not k.startswith('_'): new.__setattr__(k, self.__getattribute__(k))")
+                    self.site(cl.func, cl.for_node, "for k in self.__dict__: if not k.startswith('_'): new.__setattr__(k, self.__getattribute__(k))")
                     good = True
             ok_in[F.qual] = good
         problems = any(k in ('refute', 'undecided') for c, k, *_ in self.facts if c == 'wbs-attrs')
@@ -1235,9 +1303,9 @@ class CloneAnalysis:
                 self.site(E, E.node, f"{E.name}() returns a WBS that went through the attribute copy loop")
             elif not problems:
                 others = [x.name for x in (self.e_clone, self.e_subtree) if x is not E and ok_in[x.qual]]
-                mentions = any(isinstance(n, ast.Attribute) and n.attr == '__dict__' or isinstance(n, ast.Name) and n.id == 'vars'
-                               for F in (g, E) for n in walk_no_nested(F.node))
-                if mentions and not seen_any:
+                skip = {self.f.qual, 'wbs.WBS.__init__', 'task.Task.__init__', 'task.Task.clone', 'task.Task.to_dict'}
+                mentions = copy_idiom_in_reach(self.ctx, E, skip | ({g.qual} if seen_any else set()))
+                if mentions and not ok_in[g.qual]:
                     self.undecided(E, E.node, f"{E.name} attributes", "attribute copy written in an idiom the rule does not recognise")
                 else:
                     self.refute(E, E.node, f"{E.name}: WBS attributes not copied",
@@ -1261,7 +1329,7 @@ class CloneAnalysis:
                 rl = L.label(recv) if recv is not None else UNKNOWN
                 if rl.kind in COPYISH:
                     n_ok += 1
-                elif rl.kind in SOURCEISH or rl.kind in ('MAPPED', 'MAPPEDS'):
+                elif rl.kind in SOURCEISH or (rl.kind in ('MAPPED', 'MAPPEDS') and rl.origin == 'link'):
                     self.refute(F, w.node, w.node, f"`{src(w.node)[:80]}` writes `{unmangle(str(w.field))}` through `{src(recv)[:50]}`, "
                                                    f"which is a task / list of the source side, not a copy: cloning modifies the source")
                 else:
@@ -1281,10 +1349,40 @@ class CloneAnalysis:
                     getattr(node, 'left', getattr(node, 'target', None)))
                 if isinstance(recv, ast.Attribute) and ci.kind == 'operator' and isinstance(node, ast.AugAssign):
                     recv = recv.value
+                if ci.kind == 'call' and isinstance(node, ast.Call):
+                    # translate the callee's write roots (self / param:p) into the caller's expressions
+                    written, opaque = [], False
+                    for callee in ci.targets:
+                        params = list(callee.params)
+                        args = list(node.args)
+                        if callee.kind in ('method', 'getter', 'setter') and isinstance(node.func, ast.Attribute):
+                            args = [node.func.value] + args
+                        bind = dict(zip(params, args)) if not any(isinstance(a, ast.Starred) for a in args) else {}
+                        for k in node.keywords:
+                            if k.arg:
+                                bind[k.arg] = k.value
+                        for fld, root in self.eff.writes_star(callee):
+                            for part in (root[6:].split(',') if root.startswith('mixed:') else [root]):
+                                nm = callee.self_name if part == 'self' else (part[6:] if part.startswith('param:') else None)
+                                if nm is not None and nm in bind:
+                                    if not any(x is bind[nm] for x in written):
+                                        written.append(bind[nm])
+                                else:
+                                    opaque = True
+                    labs = [(x, L.label(x)) for x in written]
+                    bad = [(x, l) for x, l in labs if l.kind in SOURCEISH or (l.kind in ('MAPPED', 'MAPPEDS') and l.origin == 'link')]
+                    if bad:
+                        self.refute(F, node, node, f"`{src(node)[:70]}` modifies state of `{src(bad[0][0])[:50]}`, a task / list / WBS of "
+                                                   f"the source side: cloning modifies the source")
+                    elif opaque or any(l.kind not in COPYISH for x, l in labs):
+                        self.undecided(F, node, node, f"state-changing call `{src(node)[:70]}` writes to an object the rule cannot classify")
+                    else:
+                        n_ok += 1
+                    continue
                 rl = L.label(recv) if recv is not None else UNKNOWN
                 if rl.kind in COPYISH:
                     n_ok += 1
-                elif rl.kind in SOURCEISH or rl.kind in ('MAPPED', 'MAPPEDS'):
+                elif rl.kind in SOURCEISH or (rl.kind in ('MAPPED', 'MAPPEDS') and rl.origin == 'link'):
                     self.refute(F, node, node, f"`{src(node)[:70]}` ({ci.kind} {ci.name}) mutates relation/owner state through "
                                                f"`{src(recv)[:50]}`, a task / list of the source side: cloning modifies the source")
                 else:
